@@ -41,6 +41,8 @@ fn pool(src: u8, rich: bool) -> Vec<MapSpec> {
     } else {
         v.push(MapSpec::new(src, vec![o(Kind::Circle, 0, PosK::Same, 0, 0), o(Kind::Slider2, 150, PosK::Far, 8, 0), o(Kind::Circle, 400, PosK::Far, 0, 0), o(Kind::Spinner(600), 150, PosK::Same, 0, 0), o(Kind::Circle, 1000, PosK::Far, 2, 0)]));
         v.push(MapSpec::new(src, vec![o(Kind::SliderLong, 0, PosK::Same, 0, 0), o(Kind::Circle, 600, PosK::Near, 0, 0), o(Kind::Circle, 100, PosK::Far, 8, 0), o(Kind::Circle, 100, PosK::Far, 0, 0)]));
+        // a rhythm with changing intervals and colours (taiko's rhythm skill looks at interval ratios against the hit window)
+        v.push(MapSpec::new(src, [200u32, 100, 100, 200, 400, 100, 200, 100, 100, 300, 150, 150, 75, 75, 300].iter().enumerate().map(|(i, g)| o(Kind::Circle, if i == 0 { 0 } else { *g }, PosK::Far, if i % 3 == 0 { 8 } else { 0 }, 0)).collect()));
         // same-spot objects around the stacking threshold (approach time x stack leniency), and closer than the approach time
         for g in [300u32, 450, 600, 750, 900, 1200] {
             v.push(MapSpec::new(src, vec![o(Kind::Circle, 0, PosK::Same, 0, 0), o(Kind::Circle, g, PosK::Same, 0, 0), o(Kind::Slider2, g, PosK::Same, 0, 0), o(Kind::Circle, g / 2, PosK::Near, 0, 0)]));
